@@ -698,7 +698,8 @@ def check_result(res, E, case, cols, note, tag):
                 # the estimator applied to the corresponding stored 3D array
                 if builtin:
                     w, tol = own_estimate(e, base[r])
-                    ok = abs(float(got[r]) - w) <= tol
+                    # (+1e-300: subnormal values carry fewer digits)
+                    ok = abs(float(got[r]) - w) <= tol + 1e-300
                 else:
                     w = CUSTOM_ESTS[e](base[r])
                     ok = bool(np.array_equal(got[r], w, equal_nan=True))
